@@ -37,6 +37,9 @@ def tree_scopes(tier, updates=1, ro=1, fill=1, growth=True, logs=True, rnd=True)
         # 32-byte array keys / values (public-key-like), record = 16 + 32 + 8 resp. 4 + 32 + 32 bytes
         S("tree", type="T32a32u64", mode="bfs", slots=3, cap=3, keys="0,1,2,255", updates=0, ro=ro, fill=fill),
         S("tree", type="T8a32a32", mode="bfs", slots=3, cap=3, keys="0,1,2,255", updates=updates, ro=0, fill=fill),
+        # 16-byte keys with 16-byte alignment (the buffer then has to start at 8 mod 16)
+        S("tree", type="T32u128u64", mode="bfs", slots=3, cap=3, keys="0,1,2,3", updates=0, ro=ro, fill=fill),
+        S("tree", type="T8u128u8", mode="bfs", slots=3, cap=3, keys="0,1,2,3", updates=0, ro=0, fill=fill),
     ]
     if growth:
         q += [
@@ -58,6 +61,9 @@ def tree_scopes(tier, updates=1, ro=1, fill=1, growth=True, logs=True, rnd=True)
             S("tree", type="T32u64u64", mode="random", slots=24, cap=24, max_slots=40, keys=keys(60), histories=150, length=300, fill=fill),
             S("tree", type="T8u32u16", mode="random", slots=40, cap=40, max_slots=64, keys=keys(90), histories=100, length=400, fill=fill),
             S("tree", type="T32logu8", mode="random", slots=64, cap=64, keys=keys(120, 1), histories=60, length=600, fill=0),
+            # hundreds of entries: heights up to 10-12, long free lists, growth by many records
+            S("tree", type="T32u64u64", mode="random", slots=500, cap=500, max_slots=900, keys=keys(1500), histories=2, length=9000, checkpoint=150, fill=fill, fresh_base=100000),
+            S("tree", type="T8u32u16", mode="random", slots=120, cap=120, max_slots=255, keys=keys(400), histories=3, length=4000, checkpoint=80, fill=fill, fresh_base=100000),
         ]
     if tier == "quick":
         return q
@@ -130,6 +136,7 @@ def hset_scopes(tier, fill=1, rnd=True):
         q += [
             S("hset", type="HU64", mode="random", slots=32, cap=32, vals=keys(80), histories=100, length=400, fill=fill),
             S("hset", type="HWeak", mode="random", slots=24, cap=24, vals=keys(60), histories=100, length=400, fill=fill),
+            S("hset", type="HU64", mode="random", slots=600, cap=600, vals=keys(1500), histories=2, length=9000, checkpoint=150, fill=fill, fresh_base=100000),
         ]
     if tier == "quick":
         return q
@@ -167,6 +174,7 @@ def aset_scopes(tier, fill=1, rnd=True, logs=True):
         q += [
             S("aset", type="A32u16", mode="random", slots=40, max_slots=60, vals=keys(100, 1), histories=100, length=400, fill=fill, fresh_base=1000),
             S("aset", type="A32keyed", mode="random", slots=30, vals=keys(70, 1), updates=1, histories=100, length=400, fill=fill),
+            S("aset", type="A16u32", mode="random", slots=400, max_slots=700, vals=keys(1200, 1), histories=2, length=7000, checkpoint=150, fill=fill, fresh_base=100000),
         ]
     if tier == "quick":
         return q
